@@ -701,6 +701,15 @@ def run_mixed_case(c):
             vp = flat(op(x + 0.07 * d))
         if not (np.all(np.isfinite(v)) and np.all(np.isfinite(vp))) or np.max(np.abs(v)) > 1e6:
             return None, False   # outside the well-conditioned region (tan poles, overflow)
+        # near a pole of tan (or with exp/sinh blowing up) the finest central differences have not
+        # converged: such a base point is "not away from the non-differentiable points" -> skipped
+        with np.errstate(all='ignore'):
+            c12 = (flat(op(x + 2.0 ** -12 * d)) - flat(op(x - 2.0 ** -12 * d))) * 2.0 ** 11
+            c14 = (flat(op(x + 2.0 ** -14 * d)) - flat(op(x - 2.0 ** -14 * d))) * 2.0 ** 13
+        if not (np.all(np.isfinite(c12)) and np.all(np.isfinite(c14))):
+            return None, False
+        if np.max(np.abs(c12 - c14)) > 1e-5 * max(np.max(np.abs(c14)), 1e-3 * max(np.max(np.abs(v)), 1.0)):
+            return None, False
     except Exception as e:  # noqa
         return ['op(x) raised {}: {}'.format(type(e).__name__, str(e)[:200])], False
     with np.errstate(all='ignore'):
@@ -938,7 +947,7 @@ def zoo(ctx):
     def del_(sp):
         return sp.element(np.reshape(_gen(rng, sp.size), sp.shape))
     for method in ['forward', 'backward', 'central']:
-        for pc in [0, 1.5]:
+        for pc in [0, 1.5, -0.75]:
             add('PartialDerivative({}, constant pad_const={})'.format(method, pc), ['PartialDerivative'],
                 lambda method=method, pc=pc: (odl.PartialDerivative(d2, axis=1, method=method,
                                                                     pad_mode='constant', pad_const=pc),
@@ -951,7 +960,7 @@ def zoo(ctx):
                 op = odl.Divergence(range=d2, method=method, pad_mode='constant', pad_const=pc)
                 return op, op.domain.element([del_(d2), del_(d2)]), op.domain.element([del_(d2), del_(d2)])
             add('Divergence({}, constant pad_const={})'.format(method, pc), ['Divergence'], mkdiv)
-    for pc in [0, -2.0]:
+    for pc in [0, -2.0, 0.5]:
         add('Laplacian(constant pad_const={})'.format(pc), ['Laplacian'],
             lambda pc=pc: (odl.Laplacian(d2, pad_mode='constant', pad_const=pc), del_(d2), del_(d2)))
     add('OperatorLeftScalarMult(Laplacian(constant pad_const=1.5), 2)', ['Laplacian'],
@@ -966,7 +975,7 @@ def zoo(ctx):
                  del_(d2), del_(d2)))
     add('PartialDerivative(symmetric) linear', ['PartialDerivative'],
         lambda: (odl.PartialDerivative(d1, axis=0, pad_mode='symmetric'), del_(d1), del_(d1)))
-    for pc in [0, 3.0]:
+    for pc in [0, 3.0, -1.25]:
         add('ResizingOperator(constant pad_const={})'.format(pc), ['ResizingOperator'],
             lambda pc=pc: (odl.ResizingOperator(d1, ran_shp=(9,), pad_mode='constant', pad_const=pc),
                            del_(d1), del_(d1)))
